@@ -4,6 +4,9 @@
        [0; i]                      : the model rejects event number i
        [1; ret; timedout; bad_touch; underflow; returned; w_0; ..; w_{n-1}]
                                      ret 0 = not returned, 1 = false, 2 = true; words 0 = Empty, 1 = callback, 2 = Result
+     obs_all n one timed tr [(i, (k, tr')); ...]:
+       obs_nat's list followed, for every listed later consumer, by the length of its obs_later part and that part
+       (one evaluation of the main trace for all of them); [0; i] if WaitEv rejects
      obs_later k n one timed tr i tr':
        replays tr through WaitEv, projects future i to a Handoff state (WaitEv.proj) and replays the later
        consumer's events tr' through Handoff.run from there:
@@ -47,4 +50,26 @@ Definition obs_later (k : Handoff.kind) (n_ : nat) (one_ timed_ : bool) (tr : li
               map HandoffObs.enc (Handoff.cbs h) ++ [length (Handoff.gots h)] ++ map HandoffObs.enc (Handoff.gots h)
           end
       end
+  end.
+
+Definition later_part (s : st) (k : Handoff.kind) (i : nat) (tr' : list Handoff.ev) : list nat :=
+  match nth_error (futs s) i with
+  | None => [0; 0]
+  | Some f =>
+      match HandoffObs.run_at (proj k f) tr' 0 with
+      | inl j => [2; j]
+      | inr h =>
+          [1; HandoffObs.encb (Handoff.terminal h); Handoff.frees h; length (Handoff.cbs h)] ++
+          map HandoffObs.enc (Handoff.cbs h) ++ [length (Handoff.gots h)] ++ map HandoffObs.enc (Handoff.gots h)
+      end
+  end.
+
+Definition obs_all (n_ : nat) (one_ timed_ : bool) (tr : list ev)
+           (ls : list (nat * (Handoff.kind * list Handoff.ev))) : list nat :=
+  match run_at (init n_ one_ timed_) tr 0 with
+  | inl i => [0; i]
+  | inr s =>
+      [1; encr (ret s); encb (timedout s); bad_touch s; encb (underflow s);
+       encb (match wp s with WDone => true | _ => false end)] ++ map (fun f => encw (fw f)) (futs s) ++
+      flat_map (fun x => let o := later_part s (fst (snd x)) (fst x) (snd (snd x)) in length o :: o) ls
   end.
